@@ -45,7 +45,8 @@ func (s *Service) BeaconBlockRoot(ctx context.Context,
 	// We create a cancelable context with a timeout.  When a provider responds we cancel the context to cancel the other requests.
 	ctx, cancel := context.WithTimeout(ctx, s.timeout)
 
-	respCh := make(chan *api.Response[*phase0.Root], 1)
+	// Room for every provider's response, so that no provider is left blocked once we have returned.
+	respCh := make(chan *api.Response[*phase0.Root], len(s.beaconBlockRootProviders))
 	for name, provider := range s.beaconBlockRootProviders {
 		go func(ctx context.Context,
 			name string,
